@@ -7,9 +7,7 @@ import (
 	"testing"
 	"time"
 
-	"github.com/ErdemOzgen/blackdagger/cmd"
 	"github.com/ErdemOzgen/blackdagger/internal/persistence/model"
-	"github.com/ErdemOzgen/blackdagger/internal/verifsim/simexec"
 	"github.com/ErdemOzgen/blackdagger/internal/verifsim/simrt"
 )
 
@@ -128,7 +126,7 @@ func apisim(t *testing.T, tp *simrt.Tape, opts RunOpts) *Outcome {
 			cw.noteOp(op)
 		}
 	}
-	specFor := func(path string) *DagSpec {
+	specFor := func(path string, sub string) *DagSpec {
 		for _, d := range sc.Dags {
 			if dagPath(d) == path {
 				// every invocation gets its own outcome script: mostly fine, sometimes a failing step
@@ -146,17 +144,7 @@ func apisim(t *testing.T, tp *simrt.Tape, opts RunOpts) *Outcome {
 	killAt := map[int]uint64{} // pid -> seq at which the harness killed it
 	res := simrt.Run(t, cfg, func(w *simrt.World) {
 		cw = newCLIWorld(w, tp)
-		simexec.Register(w, cliPath, func(pc *simexec.ProcCtx) int {
-			if cw.byPid[pc.Proc.Pid] == nil && len(pc.Args) > 1 {
-				cp := &cliProc{idx: len(cw.procs), proc: pc.Proc, args: append([]string{}, pc.Args[1:]...), sub: pc.Args[1]}
-				if cp.sub == "start" || cp.sub == "retry" || cp.sub == "restart" {
-					cp.spec = specFor(pc.Args[len(pc.Args)-1])
-				}
-				cw.procs = append(cw.procs, cp)
-				cw.byPid[pc.Proc.Pid] = cp
-			}
-			return cmd.VerifRun(pc.Args[1:])
-		})
+		cw.specFor = specFor
 		for _, d := range sc.Dags {
 			fsOf(w).PutFile(dagPath(d), []byte(d.YAML()), 0o644)
 		}
